@@ -4,7 +4,7 @@
 import z3
 
 from .base import *          # noqa: F401,F403  (R, ghost vocabulary)
-from .base import R, int_w, int_m, is_long, sx, zx, wv, W, exc
+from .base import R, int_w, int_m, is_long, sx, zx, wv, W, exc, py_type
 from specs import ints as S
 
 CT_PRIMITIVE_SIGNED = 0x001
@@ -390,6 +390,7 @@ class _ConvTo(Contract):
             ('integer: returns an int object with the stored value',
              z3.Implies(z3.And(sc, z3.Not(isb)),
                         z3.And(r != 0, is_long(c, c.new, r), S.wide(int_w(r), True) == val,
+                               py_type(c, c.new, r) == c.ex.global_addr('PyLong_Type'),
                                c.new.err == c.old.err))),
             ('_Bool 0/1: returns False/True',
              z3.Implies(z3.And(sc, isb, z3.ULE(unit, 1)),
